@@ -37,6 +37,10 @@ type Service struct {
 	engine  *gin.Engine
 	clients []*ClientService
 
+	// mutex guards changes of clients, Agents and Listeners: every service connection
+	// registers and unregisters from its own goroutine
+	mutex sync.Mutex
+
 	Config profile.ServiceConfig
 
 	Teamserver Teamserver
